@@ -32,7 +32,7 @@ ASSUMPTIONS = ['clients other than the one calling start() begin after start() h
                'sleep, execute_once boundaries, hooks, bisect/insert gap, queue list mutators)',
                'liveness is restated as bounded progress: every due event is consumed within pending+3 cycles after the clients stop',
                'the former known findings queue-insert-preempted and stop-then-pause-deadlock are repaired (see known_findings.json); their mechanism classifiers are kept so that a regression is named precisely']
-REQUIRED_COUNTERS = ['line_level_schedules', 'schedules_run', 'schedules_completed', 'distinct_interleavings', 'cycles_observed', 'events_consumed',
+REQUIRED_COUNTERS = ['overlapping_stop_scenarios', 'line_level_schedules', 'schedules_run', 'schedules_completed', 'distinct_interleavings', 'cycles_observed', 'events_consumed',
                      'pauses_observed_mid_cycle', 'stops_while_paused', 'runner_ended_by_final', 'stress_runs',
                      'client_preempted_between_bisect_and_insert', 'execute_all_schedules']
 
@@ -110,7 +110,12 @@ def gen_scenario(rnd):
         progs[1].append(('stop',))
     pre_queued = [q((0, 5, 10)) for _ in range(rnd.randint(0, 3))]       # queued before start()
     return dict(kind=kind, progs=progs, final=(kind == 'final'), execute_all=rnd.random() < 0.35, pre_queued=pre_queued,
-                interval=0.0)
+                interval=0.0,
+                # the main client does not wait for the others before it stops: its stop() may overlap another client's
+                impatient=(extra_stop and rnd.random() < 0.6),
+                # when the chart becomes final the main client calls stop() instead of wait(): stop() meets a runner that
+                # is ending by itself
+                stop_on_final=(kind == 'final' and rnd.random() < 0.5))
 
 
 class World:
@@ -237,6 +242,11 @@ def client_body(world, cname, ops, is_main, others_done, S):
         if not is_main:
             return
         # ---- final phase of the main client: wait for the others, then drain and stop (or wait for final) ----
+        if scn.get('impatient'):
+            call('stop')
+            r.stop()
+            ret('stop')
+            return
         if S is not None:
             S.yield_('await other clients', blocked_on=others_done)
         else:
@@ -252,9 +262,14 @@ def client_body(world, cname, ops, is_main, others_done, S):
             call('queue', 0, 0)
             it.queue(Event('fin', u=0))
             ret('queue', 0)
-            call('wait')
-            r.wait()
-            ret('wait')
+            if scn.get('stop_on_final'):
+                call('stop')
+                r.stop()
+                ret('stop')
+            else:
+                call('wait')
+                r.wait()
+                ret('wait')
         else:
             pending = sum(1 for h in H if h[0] == 'call' and h[2] == 'queue') - sum(1 for h in H if h[0] == 'exec' and h[1] is not None)
             target = world.cycles[0] + pending + 3
@@ -315,7 +330,7 @@ def check_history(acc, scn, H, world, verdict, S, wit):
         if h[0] == 'ret' and h[2] in ('stop', 'wait'):
             late = [x for x in H[i + 1:] if x[0] in ('hook', 'exec')]
             if late:
-                return V('activity-after-stop', '%s() returned, then the runner still did %r' % (h[2], late[:3]))
+                return V('activity-after-stop', '%s() of %s returned, then the runner still did %r' % (h[2], h[1], late[:3]))
             break
     # pause: at most the cycle under way
     for i, h in enumerate(H):
@@ -487,6 +502,8 @@ def run_case(acc, rnd, tier, case):
     acc.count('strategy_' + strategy)
     if scn['execute_all']:
         acc.count('execute_all_schedules')
+    if scn.get('impatient') or scn.get('stop_on_final'):
+        acc.count('overlapping_stop_scenarios')
     wit = dict(scenario=scn, strategy=strategy, verdict=verdict, history=[list(map(str, h)) for h in H][-120:],
                interleaving=[('%s:%s' % t) for t in S.trace][-150:])
     for n, e in S.errors:
